@@ -1047,7 +1047,10 @@ class PyCdlib:
         parent_links = []
         child_links = []
         lastbyte = 0
-        seen_dir_extents = set([root_dir_record.extent_location()])
+        # The sectors that the directories seen so far occupy, as sorted,
+        # pairwise disjoint ranges.
+        dir_range_starts = [root_dir_record.extent_location()]
+        dir_range_ends = [root_dir_record.extent_location() + max(1, utils.ceiling_div(root_dir_record.get_data_length(), self.logical_block_size))]
         dirs = collections.deque([root_dir_record])
         while dirs:
             dir_record = dirs.popleft()
@@ -1191,11 +1194,19 @@ class PyCdlib:
                         # record in the parent_links list for later linking.
                         parent_links.append(new_record)
                     if not dots and not rr_cl:
-                        if new_record.extent_location() in seen_dir_extents:
-                            # A directory that is its own ancestor (or is
-                            # reachable twice) would make us walk forever.
+                        # A directory that is its own ancestor (or is
+                        # reachable twice) would make us walk forever, and
+                        # directories that share some of their sectors would
+                        # make us read those sectors over and over.
+                        range_start = new_record.extent_location()
+                        range_end = range_start + max(1, utils.ceiling_div(new_record.get_data_length(), self.logical_block_size))
+                        range_index = bisect.bisect_right(dir_range_starts, range_start)
+                        if range_index > 0 and dir_range_ends[range_index - 1] > range_start:
                             raise pycdlibexception.PyCdlibInvalidISO('Directory extent is referenced by more than one directory record')
-                        seen_dir_extents.add(new_record.extent_location())
+                        if range_index < len(dir_range_starts) and dir_range_starts[range_index] < range_end:
+                            raise pycdlibexception.PyCdlibInvalidISO('Directory extents overlap')
+                        dir_range_starts.insert(range_index, range_start)
+                        dir_range_ends.insert(range_index, range_end)
                         dirs.append(new_record)
                         new_record.set_ptr(extent_to_ptr[new_extent_loc])
 
